@@ -7,6 +7,9 @@ about the mass properties the library reports.  Over any field of characteristic
 -/
 import TrimeshVerif.Proofs.Affine
 import TrimeshVerif.Proofs.GeomRat
+import Mathlib.Algebra.Order.Field.Basic
+import Mathlib.Algebra.Order.AbsoluteValue.Basic
+import Mathlib.Tactic.Linarith
 namespace TV.C04
 open TV.Mat3 TV.Moments TV.Affine
 
@@ -176,5 +179,52 @@ theorem C04_rat_first_moment (L : M3R) (a b c : TV.GeomRat.V) :
     firstR (applyR L a) (applyR L b) (applyR L c) = smulV (detR L) (applyR L (firstR a b c)) :=
   rat_first_moment L a b c
 end rat
+
+
+/-! ### the identity shortcuts (`transform_points`, `apply_transform`: a matrix within 1e-8 of the identity is skipped) -/
+
+section shortcut
+variable {F : Type} [Field F] [LinearOrder F] [IsStrictOrderedRing F]
+
+/-- **error of the identity shortcut**: if every entry of the matrix is within `eps` of the identity and every
+    translation component within `eps` of zero, leaving the points where they are (what the code does below
+    `1e-8`) moves each coordinate by at most `eps · (|p₁| + |p₂| + |p₃| + 1)` away from where the matrix would
+    have put it; above the threshold the matrix is applied exactly (`C04_compose` …) -/
+theorem C04_identity_shortcut_bound (L : M3 F) (t p : V3 F) (eps : F)
+    (h00 : |L.m00 - 1| ≤ eps) (h01 : |L.m01| ≤ eps) (h02 : |L.m02| ≤ eps)
+    (h10 : |L.m10| ≤ eps) (h11 : |L.m11 - 1| ≤ eps) (h12 : |L.m12| ≤ eps)
+    (h20 : |L.m20| ≤ eps) (h21 : |L.m21| ≤ eps) (h22 : |L.m22 - 1| ≤ eps)
+    (ht1 : |t.1| ≤ eps) (ht2 : |t.2.1| ≤ eps) (ht3 : |t.2.2| ≤ eps) :
+    |(transformPoint L t p).1 - p.1| ≤ eps * (|p.1| + |p.2.1| + |p.2.2| + 1) ∧
+    |(transformPoint L t p).2.1 - p.2.1| ≤ eps * (|p.1| + |p.2.1| + |p.2.2| + 1) ∧
+    |(transformPoint L t p).2.2 - p.2.2| ≤ eps * (|p.1| + |p.2.1| + |p.2.2| + 1) := by
+  obtain ⟨p1, p2, p3⟩ := p
+  obtain ⟨t1, t2, t3⟩ := t
+  have key : ∀ a b c d x y z : F, |a| ≤ eps → |b| ≤ eps → |c| ≤ eps → |d| ≤ eps →
+      |a * x + b * y + c * z + d| ≤ eps * (|x| + |y| + |z| + 1) := by
+    intro a b c d x y z ha hb hc hd
+    have hx := abs_nonneg x; have hy := abs_nonneg y; have hz := abs_nonneg z
+    calc |a * x + b * y + c * z + d| ≤ |a * x| + |b * y| + |c * z| + |d| := by
+          have e1 := abs_add_le (a * x + b * y + c * z) d
+          have e2 := abs_add_le (a * x + b * y) (c * z)
+          have e3 := abs_add_le (a * x) (b * y)
+          linarith
+      _ = |a| * |x| + |b| * |y| + |c| * |z| + |d| := by rw [abs_mul, abs_mul, abs_mul]
+      _ ≤ eps * |x| + eps * |y| + eps * |z| + eps := by
+          have := mul_le_mul_of_nonneg_right ha hx
+          have := mul_le_mul_of_nonneg_right hb hy
+          have := mul_le_mul_of_nonneg_right hc hz
+          linarith
+      _ = eps * (|x| + |y| + |z| + 1) := by ring
+  simp only [transformPoint, add, M3.apply]
+  refine ⟨?_, ?_, ?_⟩
+  · have := key (L.m00 - 1) L.m01 L.m02 t1 p1 p2 p3 h00 h01 h02 ht1
+    convert this using 2; ring
+  · have := key L.m10 (L.m11 - 1) L.m12 t2 p1 p2 p3 h10 h11 h12 ht2
+    convert this using 2; ring
+  · have := key L.m20 L.m21 (L.m22 - 1) t3 p1 p2 p3 h20 h21 h22 ht3
+    convert this using 2; ring
+
+end shortcut
 
 end TV.C04
